@@ -11,7 +11,26 @@ import env
 HERE = os.path.dirname(os.path.abspath(__file__))
 BASE_POOL = ["dict", "list", "tuple", "str", "int", "float", "bool", "none", "bytes", "mystr", "mydict", "mylist", "mytuple",
              "userdict", "userlist", "ordered", "mymap", "myseq", "row", "row2", "seqmap", "neither", "named", "range", "dotdict",
-             "badleaf", "dictofrow", "listofuser"]
+             "badleaf", "dictofrow", "listofuser", "myset", "tmp_dict", "tmp_list", "tmp_set", "tmp_obj"]
+# a class created on the fly must be classified like the equivalent class that lives for the whole process
+ANALOG = {"tmp_dict": "mydict", "tmp_list": "mylist", "tmp_set": "myset", "tmp_obj": "neither"}
+
+
+def analog_problems(out):
+    for tmp, static in ANALOG.items():
+        for probe, want in out.get(static, {}).items():
+            have = out.get(tmp, {}).get(probe)
+            if have is not None and _strip(have) != _strip(want):
+                yield tmp, static, probe, want, have
+
+
+def _strip(x):
+    """outcomes without the class names of leaves (TmpO vs Neither)"""
+    s = json.dumps(x)
+    for a in ("TmpD", "TmpL", "TmpS", "TmpO", "MyDict", "MyList", "MySet", "Neither"):
+        s = s.replace(a, "C")
+    import re
+    return re.sub(r"0x[0-9a-f]+", "ADDR", s)
 NP_POOL = ["nd0", "nd1", "nd2", "sub0", "sub1", "sub1bad", "npnum", "npbool"]
 
 
@@ -38,7 +57,16 @@ def unit_c19(args):
             rng.shuffle(order)
             got = run_child(dict(numpy=use_np, repo=env.REPO, history=hist, probes=order))
             n += 1
+            for tmp, static, probe, want, have in analog_problems(got):
+                if not res["violations"]:
+                    res["violations"].append(dict(
+                        props=["C19"], fam="json", kind="c19", sig="C19:dynamic-class:" + probe, ops=None,
+                        msg="%s on a value of a class created on the fly (%s) gives %r, on the equivalent long-lived class (%s) %r, after processing %s" % (
+                            probe, tmp, have, static, want, hist),
+                        extra=dict(seed=seed, numpy=use_np, history=hist, probes=order, value=tmp, probe=probe, analog=static)))
             for name in probes:
+                if name in ANALOG:
+                    continue       # judged against its analog above (fresh classes differ in name only)
                 for probe, want in base.get(name, {}).items():
                     have = got.get(name, {}).get(probe)
                     if have != want and not res["violations"]:
